@@ -90,6 +90,22 @@ pub fn exec(func: &str, a: &mut Args) -> String {
         "rc_compound_toi" => { let c = compound(a); let (ray, m, s) = ray_tail(a); otoi(c.cast_local_ray(&ray, m, s)) }
         "rc_polyline2" => { let pl = polyline2(a); let (ray, m, s) = ray_tail2(a); ointer2(pl.cast_local_ray_and_get_normal(&ray, m, s)) }
         "rc_hf2" => { let hf = hf2(a); let (ray, m, s) = ray_tail2(a); ointer2(hf.cast_local_ray_and_get_normal(&ray, m, s)) }
+        // ---- 2-D crate: ball, cuboid, triangle
+        "ball2_toi" => { let r = a.f(); let (ray, m, s) = ray_tail2(a); otoi(crate::p2::shape::Ball::new(r).cast_local_ray(&ray, m, s)) }
+        "ball2_normal" => { let r = a.f(); let (ray, m, s) = ray_tail2(a); ointer2(crate::p2::shape::Ball::new(r).cast_local_ray_and_get_normal(&ray, m, s)) }
+        "cuboid2_toi" => { let he = d2::v(a); let (ray, m, s) = ray_tail2(a); otoi(crate::p2::shape::Cuboid::new(he).cast_local_ray(&ray, m, s)) }
+        "cuboid2_normal" => { let he = d2::v(a); let (ray, m, s) = ray_tail2(a); ointer2(crate::p2::shape::Cuboid::new(he).cast_local_ray_and_get_normal(&ray, m, s)) }
+        "tri2_normal" => { let p = d2::p(a); let q = d2::p(a); let t = d2::p(a); let (ray, m, s) = ray_tail2(a);
+            ointer2(crate::p2::shape::Triangle::new(p, q, t).cast_local_ray_and_get_normal(&ray, m, s)) }
+        "tri2_posed" => { let p = d2::p(a); let q = d2::p(a); let t = d2::p(a); let iso = d2::iso(a); let (ray, m, s) = ray_tail2(a);
+            ointer2(crate::p2::shape::Triangle::new(p, q, t).cast_ray_and_get_normal(&iso, &ray, m, s)) }
+        // ---- more GJK-cast shapes (oracle only): convex polyhedron / polygon from a hull, round cuboid
+        "convpoly_normal" => { let n = a.u(); let ps: Vec<P3> = (0..n).map(|_| d3::p(a)).collect(); let (ray, m, s) = ray_tail(a);
+            match crate::p3::shape::ConvexPolyhedron::from_convex_hull(&ps) { None => "nohull".into(), Some(c) => ointer(c.cast_local_ray_and_get_normal(&ray, m, s)) } }
+        "roundcuboid_normal" => { let he = d3::v(a); let br = a.f(); let (ray, m, s) = ray_tail(a);
+            ointer(crate::p3::shape::RoundCuboid { inner_shape: Cuboid::new(he), border_radius: br }.cast_local_ray_and_get_normal(&ray, m, s)) }
+        "convpoly2_normal" => { let n = a.u(); let ps: Vec<P2> = (0..n).map(|_| d2::p(a)).collect(); let (ray, m, s) = ray_tail2(a);
+            match crate::p2::shape::ConvexPolygon::from_convex_hull(&ps) { None => "nohull".into(), Some(c) => ointer2(c.cast_local_ray_and_get_normal(&ray, m, s)) } }
         _ => "nofn".into(),
     }
 }
@@ -132,7 +148,7 @@ fn polyline2(a: &mut Args) -> crate::p2::shape::Polyline {
 // ------------------------------------------------------------------ generators
 
 /// functions whose Lean handler exists (widened as the model grows)
-const ENABLED: &[&str] = &["rc_hf2", "simd_aabb_cast", "rc_hf3", "rc_hf3_posed", "rc_trimesh", "rc_trimesh_toi", "rc_compound", "rc_compound_toi", "rc_polyline2", "ball_toi", "ball_normal", "ball_posed", "ray_toi_with_ball", "bsphere_normal", "aabb_toi", "aabb_normal", "clip_aabb_line", "cuboid_toi", "cuboid_normal", "cuboid_posed", "cuboid_posed_toi", "halfspace_normal", "halfspace_posed", "triangle_normal", "triangle_inter", "segment2_normal", "segment2_posed", "capsule_normal", "cylinder_normal", "cone_normal"];
+const ENABLED: &[&str] = &["convpoly_normal", "roundcuboid_normal", "convpoly2_normal", "ball2_toi", "ball2_normal", "cuboid2_toi", "cuboid2_normal", "tri2_normal", "tri2_posed", "rc_hf2", "simd_aabb_cast", "rc_hf3", "rc_hf3_posed", "rc_trimesh", "rc_trimesh_toi", "rc_compound", "rc_compound_toi", "rc_polyline2", "ball_toi", "ball_normal", "ball_posed", "ray_toi_with_ball", "bsphere_normal", "aabb_toi", "aabb_normal", "clip_aabb_line", "cuboid_toi", "cuboid_normal", "cuboid_posed", "cuboid_posed_toi", "halfspace_normal", "halfspace_posed", "triangle_normal", "triangle_inter", "segment2_normal", "segment2_posed", "capsule_normal", "cylinder_normal", "cone_normal"];
 
 const DIR_SCALES: [f64; 9] = [0.001, 0.015625, 0.125, 0.5, 1.0, 2.0, 8.0, 64.0, 1000.0];
 
@@ -421,6 +437,8 @@ pub fn gen(r: &mut Rng, thorough: bool) -> Vec<(String, String)> {
         }
     }
     gen_composites(r, thorough, &mut v);
+    gen_2d(r, thorough, &mut v);
+    gen_gjk_more(r, thorough, &mut v);
     v.retain(|(f, _)| ENABLED.contains(&f.as_str()));
     v
 }
@@ -771,6 +789,200 @@ fn gen_composites(r: &mut Rng, thorough: bool, v: &mut Vec<(String, String)>) {
                 let m = gen_max(r, lat, t0, d.norm());
                 v.push(("rc_polyline2".into(), format!("{} {}", w, tail2(&o, &d, m, solid))));
             }
+        }
+    }
+}
+
+// ------------------------------------------------------------------ generators: 2-D crate (ball, cuboid, triangle)
+// (appended last so that the random stream of the earlier families is unchanged)
+
+/// 2-D analogue of `gen_ray3`
+fn gen_ray2(r: &mut Rng, lat: bool, size: f64, inside: &mut dyn FnMut(&mut Rng) -> P2, surf: &mut dyn FnMut(&mut Rng) -> P2) -> (P2, V2, u64) {
+    let far = |r: &mut Rng| -> P2 {
+        if lat { P2::new(r.lattice(24, 2), r.lattice(24, 2)) }
+        else { let s = size * r.logu(1.2, 30.0); P2::from(rand_dir2(r, false).normalize() * s) }
+    };
+    let kind = r.below(8);
+    let (o, mut d) = match kind {
+        0 | 1 => { let o = far(r); let t = inside(r); (o, t - o) }
+        2 => { let o = far(r); let t = surf(r); (o, t - o) }
+        3 => { let o = inside(r); (o, rand_dir2(r, lat)) }
+        4 => { let o = surf(r); (o, rand_dir2(r, lat)) }
+        5 => { let o = far(r); (o, rand_dir2(r, lat)) }
+        6 => { // axis-parallel through / near the body (one direction component exactly +-0)
+            let t = if r.bool() { inside(r) } else { surf(r) };
+            let ax = r.below(2) as usize; let mut d = V2::zeros(); d[ax] = if r.bool() { 1.0 } else { -1.0 };
+            if r.bool() { d[1 - ax] = -0.0; }
+            let back = if lat { r.range(-2, 6) as f64 * 0.5 } else { r.uniform(-0.5, 3.0) * size };
+            (t - d * back, d) }
+        _ => { // from a surface point towards another surface point (chord) or away from it
+            let o = surf(r); let t = surf(r); (o, if r.bool() { t - o } else { o - t }) }
+    };
+    if d.norm_squared() == 0.0 { d = V2::new(1.0, 0.0); }
+    // direction lengths 2^-6 .. 2^6 / 1e-2 .. 1e3: no very short directions here (the scale-dependent parallelism threshold of
+    // the segment cast is exercised by the `segment2_*` family and listed in KNOWN_FINDINGS)
+    let s = if lat { *r.pick(&[0.015625, 0.125, 0.5, 1.0, 2.0, 8.0, 64.0]) } else { r.logu(1e-2, 1e3) };
+    let d = if lat { d * s } else { d * (s / d.norm()) };
+    (o, d, kind)
+}
+
+fn gen_2d(r: &mut Rng, thorough: bool, v: &mut Vec<(String, String)>) {
+    let n = if thorough { 4000 } else { 400 };
+    let mut fam = [0usize; 8];
+    for it in 0..n {
+        let lat = it % 2 == 0;
+        let solid = r.bool();
+        // ---------------- ball (2-D)
+        {
+            let rad = r.pos_extent(lat);
+            let mut ins = |r: &mut Rng| -> P2 {
+                if lat { let k = *r.pick(&[0.0, 0.25, 0.5]); P2::new(rad * k * (r.range(-1, 1) as f64), rad * k * (r.range(-1, 1) as f64)) }
+                else { P2::from(rand_dir2(r, false).normalize() * (rad * r.unit())) } };
+            let mut sur = |r: &mut Rng| -> P2 {
+                if lat { let sx = if r.bool() { 1.0 } else { -1.0 }; let sy = if r.bool() { 1.0 } else { -1.0 };
+                    match r.below(3) { 0 => P2::new(sx * rad, 0.0), 1 => P2::new(0.0, sy * rad), _ => P2::new(0.6 * rad * sx, 0.8 * rad * sy) } }
+                else { P2::from(rand_dir2(r, false).normalize() * rad) } };
+            let (o, d, k) = gen_ray2(r, lat, rad, &mut ins, &mut sur); fam[k as usize] += 1;
+            let t0 = crate::p2::shape::Ball::new(rad).cast_local_ray(&Ray2::new(o, d), f64::MAX, solid);
+            let m = gen_max(r, lat, t0, d.norm());
+            v.push(("ball2_toi".into(), format!("{} {}", hx(rad), tail2(&o, &d, m, solid))));
+            v.push(("ball2_normal".into(), format!("{} {}", hx(rad), tail2(&o, &d, m, solid))));
+        }
+        // ---------------- cuboid (2-D)
+        {
+            let he = d2::gen_he(r, lat);
+            let mut ins = |r: &mut Rng| -> P2 {
+                if lat { P2::new(he.x * *r.pick(&[-0.5, 0.0, 0.5]), he.y * *r.pick(&[-0.5, 0.0, 0.5])) }
+                else { P2::new(he.x * r.uniform(-1.0, 1.0), he.y * r.uniform(-1.0, 1.0)) } };
+            let mut sur = |r: &mut Rng| -> P2 { // edges and corners
+                let mut p = if lat { V2::new(he.x * *r.pick(&[-0.5, 0.0, 0.5]), he.y * *r.pick(&[-0.5, 0.0, 0.5])) }
+                            else { V2::new(he.x * r.uniform(-1.0, 1.0), he.y * r.uniform(-1.0, 1.0)) };
+                let nfix = if r.below(3) == 0 { 2 } else { 1 }; let start = r.below(2) as usize;
+                for k in 0..nfix { let i = (start + k) % 2; p[i] = if r.bool() { he[i] } else { -he[i] }; }
+                P2::from(p) };
+            let (o, d, _) = gen_ray2(r, lat, he.norm(), &mut ins, &mut sur);
+            let cub = crate::p2::shape::Cuboid::new(he);
+            let t0 = cub.cast_local_ray_and_get_normal(&Ray2::new(o, d), f64::MAX, solid).map(|i| i.time_of_impact);
+            let m = gen_max(r, lat, t0, d.norm());
+            v.push(("cuboid2_toi".into(), format!("{} {}", d2::hv(&he), tail2(&o, &d, m, solid))));
+            v.push(("cuboid2_normal".into(), format!("{} {}", d2::hv(&he), tail2(&o, &d, m, solid))));
+        }
+        // ---------------- triangle (2-D): both orientations, rays through vertices / along edges / from inside
+        {
+            let (pa, pb, pc) = loop {
+                let pa = d2::gen_p(r, lat, 10.0); let pb = d2::gen_p(r, lat, 10.0); let pc = d2::gen_p(r, lat, 10.0);
+                let (e0, e1, e2) = ((pb - pa).norm(), (pc - pb).norm(), (pa - pc).norm());
+                let em = e0.max(e1).max(e2);
+                if e0.min(e1).min(e2) > 0.1 && (pb - pa).perp(&(pc - pa)).abs() > 0.05 * em * em { break (pa, pb, pc); }
+            };
+            let bary = |r: &mut Rng, edge: bool| -> P2 {
+                let (mut x, mut y, mut z) = if lat { *r.pick(&[(0.25, 0.25, 0.5), (0.5, 0.25, 0.25), (0.25, 0.5, 0.25), (0.5, 0.5, 0.0), (1.0, 0.0, 0.0), (0.25, 0.75, 0.0)]) }
+                    else { let a = r.unit(); let b2 = r.unit() * (1.0 - a); (a, b2, 1.0 - a - b2) };
+                if edge { let s = x + y; if s > 0.0 { x /= s; y /= s; z = 0.0; } else { x = 1.0; y = 0.0; z = 0.0; } }
+                let (x, y, z) = match r.below(3) { 0 => (x, y, z), 1 => (y, z, x), _ => (z, x, y) };
+                P2::from(pa.coords * x + pb.coords * y + pc.coords * z) };
+            let mut ins = |r: &mut Rng| -> P2 { if lat { let w = *r.pick(&[(0.25, 0.25, 0.5), (0.5, 0.25, 0.25), (0.25, 0.5, 0.25)]); P2::from(pa.coords * w.0 + pb.coords * w.1 + pc.coords * w.2) } else { bary(r, false) } };
+            let mut sur = |r: &mut Rng| -> P2 { bary(r, true) };
+            let size = (pb - pa).norm().max((pc - pa).norm());
+            let kind = r.below(10);
+            let (o, d) = if kind == 0 { // along an edge's line (collinear), origin before / on / after the edge
+                let (p, q) = match r.below(3) { 0 => (pa, pb), 1 => (pb, pc), _ => (pc, pa) };
+                let t = if lat { *r.pick(&[-1.0, -0.5, 0.0, 0.5, 1.0, 2.0]) } else { r.uniform(-1.5, 2.5) };
+                let sgn = if r.bool() { 1.0 } else { -1.0 };
+                (p + (q - p) * t, (q - p) * sgn * if lat { *r.pick(&[0.125, 1.0, 2.0]) } else { r.logu(0.1, 10.0) })
+            } else { let (o, d, _) = gen_ray2(r, lat, size, &mut ins, &mut sur); (P2::from(o.coords + if kind < 3 { V2::zeros() } else { V2::zeros() }), d) };
+            let tri = crate::p2::shape::Triangle::new(pa, pb, pc);
+            let t0 = tri.cast_local_ray_and_get_normal(&Ray2::new(o, d), f64::MAX, solid).map(|i| i.time_of_impact);
+            let m = gen_max(r, lat, t0, d.norm());
+            let sh = format!("{} {} {}", d2::hp(&pa), d2::hp(&pb), d2::hp(&pc));
+            v.push(("tri2_normal".into(), format!("{} {}", sh, tail2(&o, &d, m, solid))));
+            let iso = d2::gen_iso(r, lat, 50.0);
+            v.push(("tri2_posed".into(), format!("{} {} {}", sh, d2::hiso(&iso), tail2(&(iso * o), &(iso * d), m, solid))));
+        }
+    }
+    if std::env::var("VERIF_FAMILIES").is_ok() { eprintln!("C04 gen_2d ray kinds (ball2): {:?}", fam); }
+}
+
+// ------------------------------------------------------------------ generators: convex polytopes and round cuboids (GJK casts)
+fn gen_gjk_more(r: &mut Rng, thorough: bool, v: &mut Vec<(String, String)>) {
+    let n = if thorough { 3000 } else { 300 };
+    for it in 0..n {
+        let lat = it % 2 == 0;
+        let solid = r.bool();
+        // ---------------- convex polyhedron: hull of 4..9 points (lattice: half-integers in [-2,2]^3; random: box of a random size)
+        {
+            let (ps, hull) = loop {
+                let np = 4 + r.below(6) as usize;
+                let sz = if lat { 1.0 } else { r.logu(0.2, 20.0) };
+                let ps: Vec<P3> = (0..np).map(|_| if lat { P3::new(r.range(-4, 4) as f64 * 0.5, r.range(-4, 4) as f64 * 0.5, r.range(-4, 4) as f64 * 0.5) }
+                                                   else { P3::new(r.uniform(-1.0, 1.0) * sz, r.uniform(-1.0, 1.0) * sz, r.uniform(-1.0, 1.0) * sz) }).collect();
+                // reject flat point sets (volume of the first non-degenerate tetrahedron)
+                let mut vol: f64 = 0.0;
+                for i in 1..np { for j in (i + 1)..np { for k in (j + 1)..np {
+                    vol = vol.max((ps[i] - ps[0]).cross(&(ps[j] - ps[0])).dot(&(ps[k] - ps[0])).abs()); } } }
+                if vol < 0.05 * sz * sz * sz { continue; }
+                if let Some(h) = crate::p3::shape::ConvexPolyhedron::from_convex_hull(&ps) { break (ps, h); }
+            };
+            let hp: Vec<P3> = hull.points().to_vec();
+            let c = hp.iter().fold(V3::zeros(), |a, p| a + p.coords) / hp.len() as f64;
+            let size = hp.iter().map(|p| (p.coords - c).norm()).fold(0.0, f64::max);
+            let mut ins = |r: &mut Rng| -> P3 { // convex combination biased to the centroid
+                let i = r.below(hp.len() as u64) as usize; let t = if lat { *r.pick(&[0.0, 0.25, 0.5]) } else { r.unit() * 0.9 };
+                P3::from(c + (hp[i].coords - c) * t) };
+            let mut sur = |r: &mut Rng| -> P3 { // vertex, or a point of a hull edge / chord between two vertices
+                let i = r.below(hp.len() as u64) as usize; let j = r.below(hp.len() as u64) as usize;
+                let t = if r.below(3) == 0 { 0.0 } else if lat { 0.5 } else { r.unit() };
+                P3::from(hp[i].coords * (1.0 - t) + hp[j].coords * t) };
+            let (o, d) = gen_ray3(r, lat, size.max(0.1), &mut ins, &mut sur);
+            let t0 = hull.cast_local_ray(&Ray::new(o, d), f64::MAX, solid);
+            let m = gen_max(r, lat, t0, d.norm());
+            let pts = ps.iter().map(|p| d3::hp(p)).collect::<Vec<_>>().join(" ");
+            v.push(("convpoly_normal".into(), format!("{} {} {}", ps.len(), pts, tail(&o, &d, m, solid))));
+        }
+        // ---------------- round cuboid
+        {
+            let he = if lat { V3::new(*r.pick(&[0.5, 1.0, 2.0]), *r.pick(&[0.5, 1.0, 2.0]), *r.pick(&[0.5, 1.0, 2.0])) } else { V3::new(r.logu(0.1, 10.0), r.logu(0.1, 10.0), r.logu(0.1, 10.0)) };
+            let br = if lat { *r.pick(&[0.25, 0.5, 1.0]) } else { r.logu(0.05, 2.0) };
+            let mut ins = |r: &mut Rng| -> P3 {
+                if lat { P3::new(he.x * *r.pick(&[-0.5, 0.0, 0.5]), he.y * *r.pick(&[-0.5, 0.0, 0.5]), he.z * *r.pick(&[-0.5, 0.0, 0.5])) }
+                else { P3::new((he.x + 0.5 * br) * r.uniform(-1.0, 1.0), (he.y + 0.5 * br) * r.uniform(-1.0, 1.0), (he.z + 0.5 * br) * r.uniform(-1.0, 1.0)) } };
+            let mut sur = |r: &mut Rng| -> P3 { // a point of the inner box surface pushed out by br along a face / edge / corner direction
+                let mut p = V3::new(he.x * r.uniform(-1.0, 1.0), he.y * r.uniform(-1.0, 1.0), he.z * r.uniform(-1.0, 1.0));
+                if lat { p = V3::new(he.x * *r.pick(&[-0.5, 0.0, 0.5]), he.y * *r.pick(&[-0.5, 0.0, 0.5]), he.z * *r.pick(&[-0.5, 0.0, 0.5])); }
+                let nfix = 1 + r.below(3) as usize; let start = r.below(3) as usize; let mut nrm = V3::zeros();
+                for k in 0..nfix { let i = (start + k) % 3; let sg = if r.bool() { 1.0 } else { -1.0 }; p[i] = sg * he[i]; nrm[i] = sg; }
+                if lat && nfix == 2 { let i = start % 3; let j = (start + 1) % 3; nrm[i] *= 0.6; nrm[j] *= 0.8; P3::from(p + nrm * br) }
+                else if lat && nfix == 3 { nrm = V3::zeros(); nrm[start % 3] = if r.bool() { 1.0 } else { -1.0 }; p[start % 3] = nrm[start % 3] * he[start % 3]; P3::from(p + nrm * br) }
+                else { P3::from(p + nrm.normalize() * br) } };
+            let (o, d) = gen_ray3(r, lat, he.norm() + br, &mut ins, &mut sur);
+            let rc = crate::p3::shape::RoundCuboid { inner_shape: Cuboid::new(he), border_radius: br };
+            let t0 = rc.cast_local_ray(&Ray::new(o, d), f64::MAX, solid);
+            let m = gen_max(r, lat, t0, d.norm());
+            v.push(("roundcuboid_normal".into(), format!("{} {} {}", d3::hv(&he), hx(br), tail(&o, &d, m, solid))));
+        }
+        // ---------------- convex polygon (2-D): hull of 3..8 points
+        {
+            let (ps, hull) = loop {
+                let np = 3 + r.below(6) as usize;
+                let sz = if lat { 1.0 } else { r.logu(0.2, 20.0) };
+                let ps: Vec<P2> = (0..np).map(|_| if lat { P2::new(r.range(-4, 4) as f64 * 0.5, r.range(-4, 4) as f64 * 0.5) }
+                                                   else { P2::new(r.uniform(-1.0, 1.0) * sz, r.uniform(-1.0, 1.0) * sz) }).collect();
+                let mut ar: f64 = 0.0;
+                for i in 1..np { for j in (i + 1)..np { ar = ar.max((ps[i] - ps[0]).perp(&(ps[j] - ps[0])).abs()); } }
+                if ar < 0.1 * sz * sz { continue; }
+                if let Some(h) = crate::p2::shape::ConvexPolygon::from_convex_hull(&ps) { if h.points().len() >= 3 { break (ps, h); } }
+            };
+            let hp: Vec<P2> = hull.points().to_vec();
+            let c = hp.iter().fold(V2::zeros(), |a, p| a + p.coords) / hp.len() as f64;
+            let size = hp.iter().map(|p| (p.coords - c).norm()).fold(0.0, f64::max);
+            let mut ins = |r: &mut Rng| -> P2 { let i = r.below(hp.len() as u64) as usize; let t = if lat { *r.pick(&[0.0, 0.25, 0.5]) } else { r.unit() * 0.9 }; P2::from(c + (hp[i].coords - c) * t) };
+            let mut sur = |r: &mut Rng| -> P2 { let i = r.below(hp.len() as u64) as usize; let j = (i + 1) % hp.len();
+                let t = if r.below(3) == 0 { 0.0 } else if lat { 0.5 } else { r.unit() }; P2::from(hp[i].coords * (1.0 - t) + hp[j].coords * t) };
+            let (o, d, _) = gen_ray2(r, lat, size.max(0.1), &mut ins, &mut sur);
+            let t0 = hull.cast_local_ray(&Ray2::new(o, d), f64::MAX, solid);
+            let m = gen_max(r, lat, t0, d.norm());
+            let pts = ps.iter().map(|p| d2::hp(p)).collect::<Vec<_>>().join(" ");
+            v.push(("convpoly2_normal".into(), format!("{} {} {}", ps.len(), pts, tail2(&o, &d, m, solid))));
         }
     }
 }
